@@ -85,26 +85,37 @@ Definition field_conv_okb (f : sfield) : bool :=
   | t => match peel t with SCompactT _ => false | _ => true end
   end.
 
-(** the token-level parameters of [expected_item] that correspond to the settings *)
+(** every application names a definition with a non-empty path *)
+Fixpoint apps_okb (defs : list sdef) (t : src) : bool :=
+  match t with
+  | SApp d args =>
+      match nth_error defs d with
+      | Some sd => match sd_path sd with [] => false | _ => true end
+      | None => false
+      end && forallb (apps_okb defs) args
+  | STup ts => forallb (apps_okb defs) ts
+  | SVec x | SVecDeque x | SArray _ x | SCompactT x | SBox x | SOpt x | SBTreeSet x | SCow x | SRange x => apps_okb defs x
+  | SRes a b | SBTreeMap a b => apps_okb defs a && apps_okb defs b
+  | SParam _ | SPrimT _ | SBitVec _ _ => true
+  end.
+
+(** a field of the IR read as a parsed type (what [Checkers/Parse.v] reads back from the tokens
+    of the field: a boxed field is wrapped at field level) *)
+Definition fi_pty (alloc : list string) (fi : field_ir) : pty :=
+  let p := tpath_pty alloc (fi_path fi) in
+  if fi_boxed fi then abs_p (alloc ++ ["boxed"; "Box"]) [p] else p.
+
+(** the token-level parameters of [expected_item] / [src_pty] that correspond to the settings:
+    segments and leading [::] of the alloc / compact / bits paths as the parser reads them *)
 Definition segs_ok (segs : list string) : bool :=
   forallb (fun x => negb (String.eqb x ":")) segs.
 
-Record render_env := mk_renv {
-  re_root : string; re_alloc : list string; re_compact : list string * bool;
-  re_bits : list string * bool; re_order : bool -> pty }.
-
 Definition segs_lead_of (t : tokens) : list string * bool := (toks_to_segs t, toks_leading t).
 
-(** [e] is how [s] (and the resolution of the order markers) is read back by the parser *)
-Definition env_of (s : settings) (order_tp : bool -> tpath) : render_env :=
-  let alloc := toks_to_segs (alloc_tokens (s_alloc s)) in
-  mk_renv (s_root s) alloc (segs_lead_of (opt_toks (s_compact s))) (segs_lead_of (opt_toks (s_bits s)))
-          (fun lsb => tpath_pty alloc (order_tp lsb)).
+Definition alloc_segs (s : settings) : list string := toks_to_segs (alloc_tokens (s_alloc s)).
 
-(** the alloc path is printed with a leading [::] and made of plain segments; the root and the
-    definitions' path segments are not the token [:] *)
+(** the alloc path is [::seg::..::seg]; the root and the definitions' path segments are not the
+    token [:] *)
 Definition render_okb (s : settings) (defs : list sdef) : bool :=
-  toks_leading (alloc_tokens (s_alloc s)) &&
-  list_eqb String.eqb (alloc_tokens (s_alloc s)) (abs_path (toks_to_segs (alloc_tokens (s_alloc s)))) &&
-  negb (String.eqb (s_root s) ":") &&
-  forallb (fun d => segs_ok (sd_path d)) defs.
+  list_eqb String.eqb (alloc_tokens (s_alloc s)) (abs_path (alloc_segs s)) && segs_ok (alloc_segs s) &&
+  negb (String.eqb (s_root s) ":") && forallb (fun d => segs_ok (sd_path d)) defs.
